@@ -113,10 +113,12 @@ def py_scan(m, codes, float_attrs):
     return hits, extra
 
 
-def f32_evidence(m, limit=6):
+def f32_evidence(m, limit=6, perturb=None):
     """where a double-precision model carries values that went through float32: FLOAT attributes whose value is the float32
     rounding of a shorter decimal (ONNX float attributes are single precision by definition), and small DOUBLE constants
-    all of whose entries are float32 values with at least one such rounded decimal"""
+    all of whose entries are float32 values with at least one such rounded decimal.
+    With perturb = a function returning +1/-1, every such item of m is moved IN PLACE by one float32 ulp in that direction
+    (materiality experiment: can the float32 rounding of these items explain an observed deviation at all?)."""
     import numpy as np
     import onnx
     from onnx import numpy_helper
@@ -127,6 +129,9 @@ def f32_evidence(m, limit=6):
         f = np.float32(v)
         return bool(np.isfinite(f)) and float(f) == float(v) and float(str(f)) != float(v)
 
+    def bump(v):
+        return float(np.nextafter(np.float32(v), np.float32(np.inf if perturb() > 0 else -np.inf)))
+
     def tensor(t, where):
         if t.data_type != onnx.TensorProto.DOUBLE:
             return
@@ -134,14 +139,20 @@ def f32_evidence(m, limit=6):
         if n == 0 or n > 4096:
             return
         try:
-            a = numpy_helper.to_array(t).reshape(-1)
+            arr = numpy_helper.to_array(t)
         except Exception:
             return
+        a = arr.reshape(-1)
         nz = a[np.isfinite(a) & (a != 0)]
         if nz.size and np.array_equal(nz, nz.astype(np.float32).astype(np.float64)):
             for x in nz[:64]:
                 if rounded_decimal(float(x)):
                     out.append(f"{where}: DOUBLE constant holding float32-rounded values, e.g. {float(x)!r} = float32({np.float32(x)})")
+                    if perturb is not None:
+                        d = np.inf if perturb() > 0 else -np.inf
+                        f32 = arr.astype(np.float32)
+                        moved = np.where(np.isfinite(arr) & (arr != 0), np.nextafter(f32, np.float32(d)), f32).astype(np.float64)
+                        t.CopyFrom(numpy_helper.from_array(moved.reshape(arr.shape), t.name))
                     return
 
     def nodes(ns, where):
@@ -151,8 +162,14 @@ def f32_evidence(m, limit=6):
                     continue
                 if a.type == AP.FLOAT and n.op_type != "Constant" and rounded_decimal(a.f):
                     out.append(f"{where}:{n.op_type}({n.name}).{a.name} = {a.f!r}: float attribute = float32({np.float32(a.f)})")
+                    if perturb is not None:
+                        a.f = bump(a.f)
                 if a.type == AP.FLOATS and n.op_type != "Constant" and any(rounded_decimal(x) for x in a.floats):
                     out.append(f"{where}:{n.op_type}({n.name}).{a.name}: float-list attribute with float32-rounded decimals")
+                    if perturb is not None:
+                        vals = [bump(x) if rounded_decimal(x) else x for x in a.floats]
+                        del a.floats[:]
+                        a.floats.extend(vals)
                 if a.type == AP.TENSOR:
                     tensor(a.t, f"{where}:{n.op_type}({n.name}).{a.name}")
                 if a.type == AP.GRAPH:
@@ -168,7 +185,56 @@ def f32_evidence(m, limit=6):
     graph(m.graph, "main")
     for f in m.functions:
         nodes(f.node, "function " + f.name)
-    return out[:limit]
+    return out if perturb is not None else out[:limit]
+
+
+def float_taint_reaches(m, out_index):
+    """does a single-precision (FLOAT/COMPLEX64) value feed main-graph output number out_index through floating-typed values?
+    Sources: main-graph values typed FLOAT, Cast-to-FLOAT nodes, nodes whose nested bodies / called local functions contain a
+    single-precision item.  Values of unknown type do not propagate (leans towards NOT charging the model)."""
+    import onnx
+    AP, TP = onnx.AttributeProto, onnx.TensorProto
+    single, floating = {TP.FLOAT, TP.COMPLEX64}, {TP.FLOAT, TP.COMPLEX64, TP.DOUBLE, TP.COMPLEX128, TP.FLOAT16, TP.BFLOAT16}
+    g = m.graph
+    vt = {}
+    for vi in list(g.input) + list(g.output) + list(g.value_info):
+        if vi.type.HasField("tensor_type"):
+            vt[vi.name] = vi.type.tensor_type.elem_type
+    for t in g.initializer:
+        vt[t.name] = t.data_type
+
+    def body_has_single(nodes_):
+        for n in nodes_:
+            for a in n.attribute:
+                if a.type == AP.INT and a.name in ("to", "dtype") and a.i in single:
+                    return True
+                if a.type == AP.TENSOR and a.t.data_type in single:
+                    return True
+                if a.type == AP.GRAPH and graph_has_single(a.g):
+                    return True
+                if a.type == AP.GRAPHS and any(graph_has_single(x) for x in a.graphs):
+                    return True
+        return False
+
+    def graph_has_single(gg):
+        if any(t.data_type in single for t in gg.initializer):
+            return True
+        for vi in list(gg.input) + list(gg.output) + list(gg.value_info):
+            if vi.type.HasField("tensor_type") and vi.type.tensor_type.elem_type in single:
+                return True
+        return body_has_single(gg.node)
+    fn_single = {(f.domain, f.name): body_has_single(f.node) for f in m.functions}
+    tainted = {n for n, t in vt.items() if t in single}
+    for n in g.node:                                       # nodes are topologically ordered
+        src = any(i in tainted for i in n.input)
+        if not src:
+            src = body_has_single([n]) or fn_single.get((n.domain, n.op_type), False)
+        if src:
+            for o in n.output:
+                if vt.get(o) in floating:
+                    tainted.add(o)
+    outs = list(g.output)
+    return 0 <= out_index < len(outs) and outs[out_index].name in tainted
 
 
 # =============================================================================== triage: does the testcase ask for float64?
@@ -261,6 +327,17 @@ def _init_worker():
     warnings.simplefilter("ignore")
     import logging
     logging.disable(logging.CRITICAL)
+
+
+def _preload():
+    """import every plugin / example module NOW, with jax_enable_x64 at its default: their module-level example objects
+    (eqx / nnx modules) must not be created while some conversion has x64 switched on"""
+    import exports
+    exports.registry_items()
+    try:
+        exports._extra()
+    except Exception:
+        pass
 
 
 def _case(kind, ident, dp):
@@ -503,7 +580,7 @@ def _numeric(fn, m, key, vals, params, seed, spec_dtypes=()):
             worst = {"err": err, "sens": sens, "out": k}
     if n_float == 0:
         return {"status": "skip:no-float-output", "notes": notes}
-    xeval = None
+    xeval = err2 = None
     if worst["err"] > BAND_LO and evaluator == "onnxruntime" and small:
         # is the deviation a property of the MODEL (both evaluators compute the same function) or of one kernel?
         try:
@@ -513,11 +590,47 @@ def _numeric(fn, m, key, vals, params, seed, spec_dtypes=()):
             fin = np.isfinite(a) & np.isfinite(b)
             sc = float(np.max(np.abs(a[fin]))) if fin.any() else 1.0
             xeval = float(np.max(np.abs(a[fin] - b[fin]))) / (sc if sc > 0 else 1.0) if fin.any() else 0.0
+            rr = ref[k]
+            fin = np.isfinite(rr) & np.isfinite(b)
+            sc = float(np.max(np.abs(rr[fin]))) if fin.any() else 1.0
+            err2 = float(np.max(np.abs(rr[fin] - b[fin]))) / (sc if sc > 0 else 1.0) if fin.any() else 0.0
         except Exception as e:  # noqa
             xeval = None
             notes.append(f"reference-evaluator-failed:{type(e).__name__}")
+    material = None
+    if worst["err"] > BAND_LO and small:
+        # materiality: move every float32-rounded constant / float attribute of the model by ONE float32 ulp (all up; then
+        # alternating directions) and re-evaluate with the same evaluator: the true rounding errors are at most half an ulp
+        # each, so if even this cannot move the output by a comparable amount, those items do not explain the deviation
+        import copy
+        k = worst["out"]
+        base = np.asarray(got[k], dtype=np.float64)
+        deltas = []
+        for mode in ("up", "alternate"):
+            m2 = copy.deepcopy(m)
+            state = [0]
+
+            def sign():
+                state[0] += 1
+                return 1 if (mode == "up" or state[0] % 2) else -1
+            if not f32_evidence(m2, perturb=sign):
+                break
+            try:
+                if evaluator == "onnxruntime":
+                    o2 = ort.InferenceSession(m2.SerializeToString(), so, providers=["CPUExecutionProvider"]).run(None, feed)[k]
+                else:
+                    from onnx.reference import ReferenceEvaluator
+                    o2 = ReferenceEvaluator(m2).run(None, feed)[k]
+                o2 = np.asarray(o2, dtype=np.float64)
+                fin = np.isfinite(base) & np.isfinite(o2)
+                sc = float(np.max(np.abs(base[fin]))) if fin.any() else 1.0
+                deltas.append(float(np.max(np.abs(base[fin] - o2[fin]))) / (sc if sc > 0 else 1.0) if fin.any() else 0.0)
+            except Exception as e:  # noqa
+                notes.append(f"materiality-run-failed:{type(e).__name__}")
+        material = {"const_delta_1ulp": max(deltas) if deltas else 0.0,
+                    "float_value_feeds_output": bool(float_taint_reaches(m, k))}
     return {"status": "compared", "err": worst["err"], "sens": worst["sens"], "out": worst["out"], "notes": notes,
-            "evaluator": evaluator, "xeval": xeval, "n_inputs_f64": sum(1 for d in dts if d == np.float64), "from_values": vals is not None,
+            "evaluator": evaluator, "xeval": xeval, "err_reference_evaluator": err2, "material": material, "n_inputs_f64": sum(1 for d in dts if d == np.float64), "from_values": vals is not None,
             "symbolic_dims": len(symdim)}
 
 
@@ -528,6 +641,7 @@ def export_worker(job):
     import jax
     out = {"kind": kind, "ident": ident, "dp": dp}
     try:
+        _preload()
         key, fn, spec, params, opset, vals, tp = _case(kind, ident, dp)
     except Exception as e:  # noqa
         out.update(key=f"{kind}:{ident}", error=f"setup {type(e).__name__}: {str(e)[:200]}")
@@ -580,6 +694,21 @@ def _count(_):
     return len(exports.registry_items())
 
 
+def _scope_info(_):
+    """per registry item: may the numeric comparison (c) apply?  (no narrower-float spec, no input_params)"""
+    import numpy as np
+    import exports
+    out = []
+    for tp in exports.registry_items():
+        try:
+            vals = tp.get("input_values")
+            dts = [str(np.asarray(v).dtype) for v in vals] if vals is not None else _spec_dtypes(exports.tp_spec(tp))
+            out.append(not tp.get("input_params") and not any(d in NARROW for d in dts if d))
+        except Exception:
+            out.append(False)
+    return out
+
+
 # ---- (d) the process-wide flag
 def _flag_fn_ok(x):
     import jax.numpy as jnp
@@ -606,6 +735,7 @@ def flag_worker(job):
     from jax2onnx import user_interface as ui
     from jax2onnx.converter import conversion_api as ca
     obs = {"to_onnx": [], "managers": [], "nested": []}
+    _preload()
 
     def setf(v):
         jax.config.update("jax_enable_x64", bool(v))
@@ -854,8 +984,8 @@ def coq_verdicts(ctx, name, items):
             t.append(f"Definition m_{off + k} : omodel := {term}.")
             t.append(f"Eval vm_compute in (first_double m_{off + k}, first_single m_{off + k}, table_closed m_{off + k}).")
         return "\n".join(t) + "\n"
-    per_file = 40
-    res = common.coq_eval_batches(ctx, name, EVAL_HEADER, items, render, per_file=per_file, jobs=8, timeout=1500)
+    per_file = min(150, max(40, -(-len(items) // 24)))
+    res = common.coq_eval_batches(ctx, name, EVAL_HEADER, items, render, per_file=per_file, jobs=12, timeout=2400)
     verdicts = []
     pat = re.compile(r'=\s*\(\s*(None|Some\s+"((?:[^"]|"")*)"(?:%string)?)\s*,\s*(None|Some\s+"((?:[^"]|"")*)"(?:%string)?)\s*,'
                      r'\s*(true|false)\s*\)')
@@ -916,15 +1046,27 @@ def judge_double(r, fs):
         return "explained-by-conditioning", None, ""
     # 1e-9 < err <= 1e-5, far beyond what double rounding noise explains.  Charged to the MODEL only when the model carries a
     # value that went through float32 and the deviation is not an artefact of one evaluator's kernel
+    mat = num.get("material") or {}
+    by_const = (mat.get("const_delta_1ulp") or 0.0) >= err / 4
+    by_float = bool(fs) and bool(mat.get("float_value_feeds_output"))
     if not evidence:
         return "band-but-no-model-evidence(evaluator kernel accuracy)", None, ""
-    if num.get("evaluator") == "onnxruntime" and (num.get("xeval") is None or num["xeval"] > 1e-10):
-        return "band-but-evaluators-disagree-or-single-evaluator", None, ""
+    if not (by_const or by_float):
+        return "band-but-single-precision-items-cannot-explain-it", None, ""
+    evidence = evidence + [f"materiality: moving the float32-rounded constants by one float32 ulp moves the output by "
+                           f"{mat.get('const_delta_1ulp', 0):.3g}; a single-precision value feeds the output: {by_float}"]
+    if num.get("evaluator") == "onnxruntime":
+        # ORT evaluated it: the onnx reference evaluator must either compute the same function (so the deviation belongs to the
+        # model) or deviate from JAX on its own as well; a deviation only ORT shows is an ORT kernel artefact
+        e2 = num.get("err_reference_evaluator")
+        same = num.get("xeval") is not None and num["xeval"] <= 1e-10
+        if not (same or (e2 is not None and e2 > BAND_LO)):
+            return "band-but-only-one-evaluator-deviates", None, ""
     return ("hidden-f32", f"hidden-f32:{r['key']}",
             f"enable_double_precision=True export of {r['key']}: the callable is float64-only under JAX x64, but the model "
-            f"({num.get('evaluator')}" + (f", onnx reference evaluator agrees with it to {num['xeval']:.1g}" if num.get("xeval") is not None else "")
+            f"({num.get('evaluator')}" + (f"; onnx reference evaluator differs from JAX by {num['err_reference_evaluator']:.3g}" if num.get("err_reference_evaluator") is not None else "")
             + f") differs from JAX(x64) by relative {err:.3g} on output {num['out']} (1-ulp input sensitivity {sens:.3g}); "
-            f"single-precision evidence in the model: {evidence[:3]}")
+            f"single-precision evidence in the model: {evidence[:3] + evidence[-1:]}")
 
 
 # =============================================================================== run
@@ -957,9 +1099,14 @@ def run(ctx):
     t_pool = time.time()
     with get_context("spawn").Pool(procs, initializer=_init_worker, maxtasksperchild=60) as pool:
         rows_async = pool.apply_async(policy_rows_worker, (0,))
-        total = pool.apply(_count, (0,))
+        scope = pool.apply(_scope_info, (0,))
+        total = len(scope)
         idx_s = exports.select_indices(total, n_single, ctx.seed)
-        idx_d = exports.select_indices(total, n_double, ctx.seed + 1)
+        # double mode: three quarters of the sample from the testcases the numeric comparison applies to, the rest from all
+        in_scope = [i for i, okk in enumerate(scope) if okk]
+        n_in = (n_double * 3) // 4
+        idx_d = sorted({in_scope[j] for j in exports.select_indices(len(in_scope), n_in, ctx.seed + 1)} |
+                       set(exports.select_indices(total, n_double - n_in, ctx.seed + 1)))
         jobs = [("reg", i, False, ctx.seed, False) for i in idx_s] + [("extra", n, False, ctx.seed, False) for n in exports.extra_names()]
         jobs += [("reg", i, True, ctx.seed, True) for i in idx_d] + [("extra", n, True, ctx.seed, True) for n in exports.extra_names()]
         flag_idents = exports.select_indices(total, 4 if quick else 40, ctx.seed + 2)
@@ -1059,6 +1206,9 @@ def run(ctx):
             invalid += key.startswith("mixed-precision-invalid")
             ctx.violate(key, what, {"kind": "double", "job": [r["kind"], r["ident"]], "key": r["key"],
                                     "err": num.get("err"), "sens": num.get("sens")})
+    notable = [{"case": r["key"], "category": judge_double(r, r["verdict"][1] if r.get("verdict") else None)[0],
+                "rel_err": (r.get("num") or {}).get("err")} for r in doubles
+               if judge_double(r, r["verdict"][1] if r.get("verdict") else None)[0].startswith(("band", "differs", "explained", "model-mixes"))][:16]
     gross = stats.get("differs>1e-5(not this property)", 0)
     illcond = stats.get("explained-by-conditioning", 0)
     unconfirmed = sum(v for k, v in stats.items() if k.startswith("band-but"))
@@ -1114,7 +1264,7 @@ def run(ctx):
         "rule": "policy: all 15 numpy dtypes x flag (exhaustive), closed-constant decision: all 15x16x2x2; exports: deterministic spread "
                 "over the registry + hand-written nested programs, each in single and double mode; non-trivial = export with more than one node",
         "exhaustive_policy": True,
-        "registry_size": total,
+        "registry_size": total, "registry_items_in_numeric_scope": len(in_scope),
         "single_exports": {"attempted": len(singles), "exported": n_s_ok, "export_errors": n_err_s, "no_double": n_s_clean,
                            "double_expected_float64_input": n_expected_input,
                            "double_expected_requested_by_testcase": n_expected_request,
@@ -1125,7 +1275,8 @@ def run(ctx):
                            "band_not_charged_to_model": unconfirmed,
                            "explained_by_conditioning": illcond, "gross_mismatch_other_property": gross,
                            "models_with_single_precision_items": n_single_items,
-                           "other": {k: v for k, v in sorted(stats.items()) if k != "agree<=1e-9"}},
+                           "other": {k: v for k, v in sorted(stats.items()) if k != "agree<=1e-9"},
+                           "not_charged_or_out_of_scope_examples": notable},
         "graphs_scanned": sum(r.get("n_graphs", 0) for r in exported),
         "function_bodies_scanned": sum(r.get("n_functions", 0) for r in exported),
         "flag_calls": n_flag, "flag_outcomes_seen": outcomes, "manager_runs": len(mg),
